@@ -25,6 +25,7 @@ class Q:
     def __init__(self, srcdir=None):
         c = consts.get(QNAMES, srcdir=srcdir)
         self.c = c
+        self.srcdir = srcdir
         g = lambda n: c["DISPATCH_QUEUE_" + n]
         self.DIRTY = g("DIRTY")
         self.OWNER = g("DRAIN_OWNER_MASK")
@@ -174,11 +175,26 @@ def ceval(fn, op, env, depth=0):
         if v is None:
             return None
         return v & ((1 << bits.get(i.d.get("ty"), 64)) - 1)
-    if i.op in ("and", "or", "xor", "lshr", "shl", "udiv", "add", "sub"):
+    if i.op == "sext":
+        v = ceval(fn, i.ops[0], env, depth + 1)
+        src = fn.inst(i.ops[0])
+        sb = bits.get(src.d.get("ty")) if src is not None else None
+        if v is None or sb is None:
+            return None
+        if v >> (sb - 1):
+            v -= 1 << sb
+        return v & ((1 << bits.get(i.d.get("ty"), 64)) - 1)
+    if i.op in ("and", "or", "xor", "lshr", "shl", "udiv", "add", "sub", "ashr", "mul", "urem"):
         x, y = ceval(fn, i.ops[0], env, depth + 1), ceval(fn, i.ops[1], env, depth + 1)
         if x is None or y is None:
             return None
-        w = (1 << bits.get(i.d.get("ty"), 64)) - 1
+        nb = bits.get(i.d.get("ty"), 64)
+        w = (1 << nb) - 1
+        if i.op == "ashr":
+            sx = x - (1 << nb) if x >> (nb - 1) else x
+            return (sx >> y) & w if y < nb else (w if sx < 0 else 0)
+        if i.op == "mul": return (x * y) & w
+        if i.op == "urem": return x % y if y else None
         if i.op == "and": return x & y
         if i.op == "or": return x | y
         if i.op == "xor": return x ^ y
